@@ -269,6 +269,8 @@ theorem apply_delete_absent_empty_path :
 /-! ## Translated functions (YtkModel/Generated/Funcs.lean, regenerated from the Go source on every
     run by extract/translate.go): the translation EQUALS the hand-written model on the stated
     domain.  An edit of the Go function changes the regenerated definition and these stop checking. -/
+end Ytk.C08
+
 namespace Ytk.C08
 open Ytk.Generated
 
